@@ -32,7 +32,7 @@ SPEC = dict(
     thorough=dict(cases=96000, len=90, shards=16),
     nontrivial=nontrivial,
     rule="cases = random histories of reload (mode/thresholds/minimum duration; 15% with activation < deactivation) / "
-         "local gauges / peer messages (incl. own id, zero and >100 levels, malformed) / clock advances (60% exactly on, 1 ns "
+         "local gauges (14% outside [0, capacity]: heap / queue lengths above capacity by 1%, 50%, 10x, negative, zero or negative denominators) / peer messages (incl. own id, zero and >100 levels, malformed) / clock advances (60% exactly on, 1 ns "
          "before or after a report-expiry or hold-expiry instant) / Recalc on a real StressRelief with a fake clock; "
          "non-trivial = has a monitor-mode reload, a clock advance, a peer report and >= 2 recalculations with relief "
          "observed on and later off; distinct by transcript hash",
